@@ -218,20 +218,25 @@ Proof.
     apply dial_addrs_admitted in H. destruct H as [k H]. exists k. apply in_or_app. right. exact H.
 Qed.
 
+Lemma outbound_opt_incl : forall sites o m p addrs e,
+  In e (outbound_opt sites o m p addrs) -> In e (outbound sites m p addrs).
+Proof. intros sites o m p addrs e H. destruct o; cbn in H; try exact H. contradiction. Qed.
+
+(* for EVERY dial-context option *)
 Lemma blocked_never_admitted_l : forall sites h, (forall g, has_gate sites g = true) -> Forall wf_event h ->
   let m := g_mem (run init_state h) in
   (forall p, model_has m (IdPeer p) ->
-     (forall addrs, outbound sites m p addrs = [PvPeerDial p false]) /\
+     (forall o addrs, outbound_opt sites o m p addrs = [PvPeerDial p false] \/ outbound_opt sites o m p addrs = []) /\
      (forall oa, intercept_accept m oa = true ->
         inbound sites m p oa = [PvAccept true; PvHandshake; PvSecured true p false; PvClosed]) /\
      (forall oa, ~ In PvConnected (inbound sites m p oa))) /\
   (forall a b, model_has m (tid (RAddr a)) -> norm_ip b = norm_ip a ->
-     (forall p addrs j, nth_error addrs j = Some (Some b) -> ~ In (PvTransportDial j) (outbound sites m p addrs)) /\
+     (forall o p addrs j, nth_error addrs j = Some (Some b) -> ~ In (PvTransportDial j) (outbound_opt sites o m p addrs)) /\
      (forall p, inbound sites m p (Some b) = [PvAccept false; PvClosed])) /\
   (forall s b, wf_snet s -> snet_key s <> None -> wf_ip b -> model_has m (tid (RSubnet s)) -> contains s b = true ->
-     (forall p addrs j, nth_error addrs j = Some (Some b) -> ~ In (PvTransportDial j) (outbound sites m p addrs)) /\
+     (forall o p addrs j, nth_error addrs j = Some (Some b) -> ~ In (PvTransportDial j) (outbound_opt sites o m p addrs)) /\
      (forall p, inbound sites m p (Some b) = [PvAccept false; PvClosed])) /\
-  (forall p addrs, In PvConnected (outbound sites m p addrs) ->
+  (forall o p addrs, In PvConnected (outbound_opt sites o m p addrs) ->
      exists k, In (PvTransportDial k) (outbound sites m p addrs)).
 Proof.
   intros sites h Hg Hw m.
@@ -242,18 +247,18 @@ Proof.
         inbound sites m p oa = [PvAccept true; PvHandshake; PvSecured true p false; PvClosed]).
     { intros oa Ha. rewrite inbound_peer_blocked by (auto). rewrite Hg, Ha. reflexivity. }
     split; [|split].
-    + intros addrs. apply outbound_peer_blocked; auto.
+    + intros o addrs. destruct o; cbn [outbound_opt]; auto; left; apply outbound_peer_blocked; auto.
     + exact Hin.
     + intros oa H. destruct (intercept_accept m oa) eqn:Ea.
       * rewrite Hin in H by exact Ea. cbn in H. intuition discriminate.
       * rewrite inbound_peer_blocked in H by auto. rewrite Hg, Ea in H. cbn in H. intuition discriminate.
   - intros a b Ha Hn. pose proof (enforced_addr_refused m a b Ha Hn) as Hr. split.
-    + intros p addrs j Hj. eapply outbound_addr_blocked; eauto.
+    + intros o p addrs j Hj H. apply outbound_opt_incl in H. revert H. eapply outbound_addr_blocked; eauto.
     + intros p. apply inbound_addr_blocked; auto.
   - intros s b Hs Hk Hb Hm Hc. pose proof (enforced_subnet_refused m s b Hok Hs Hk Hb Hm Hc) as Hr. split.
-    + intros p addrs j Hj. eapply outbound_addr_blocked; eauto.
+    + intros o p addrs j Hj H. apply outbound_opt_incl in H. revert H. eapply outbound_addr_blocked; eauto.
     + intros p. apply inbound_addr_blocked; auto.
-  - intros p addrs. apply outbound_admitted_dial.
+  - intros o p addrs H. apply outbound_opt_incl in H. apply outbound_admitted_dial, H.
 Qed.
 
 (* every event, from every reachable state: what it does to every rule *)
@@ -268,4 +273,49 @@ Lemma persist_crash_safe_l : forall h e id, Forall wf_event h -> wf_event e ->
 Proof.
   intros h e id Hw He st. rewrite (model_has_step st e id He (Inv_run h init_state Hw Inv_init)).
   destruct e; tauto.
+Qed.
+
+(* ---- order of gates and hand-offs inside the listener functions ------------------ *)
+(* seq: the gate codes (3 accept, 4 secured-in, 5 secured-out, 13/14 delegated
+   Accept/Upgrade of the upgrader listener) and hand-offs (9) of one function
+   in source order; 99 = a hand-off pattern the scanner expected was not found *)
+Fixpoint guarded (req seen seq : list Z) : bool :=
+  match seq with
+  | [] => true
+  | c :: r =>
+      if Z.eqb c 9 then forallb (fun g => existsb (Z.eqb g) seen) req && guarded req seen r
+      else if Z.eqb c 99 then false
+      else guarded req (c :: seen) r
+  end.
+
+Definition handoffs_guarded (l : list (Z * list Z * list Z)) : bool :=
+  forallb (fun x : Z * list Z * list Z => existsb (Z.eqb 9) (snd x) && guarded (snd (fst x)) [] (snd x)) l.
+
+Lemma guarded_sound : forall req seq seen pre post g,
+  guarded req seen seq = true -> seq = pre ++ 9%Z :: post -> In g req -> In g pre \/ In g seen.
+Proof.
+  intros req seq. induction seq as [|c r IH]; intros seen pre post g H E Hg.
+  - destruct pre; discriminate.
+  - cbn in H. destruct pre as [|x pre']; cbn in E; inversion E; subst.
+    + rewrite Z.eqb_refl in H. apply andb_true_iff in H. destruct H as [H _].
+      rewrite forallb_forall in H. specialize (H g Hg). apply existsb_exists in H.
+      destruct H as [y [Hy Ey]]. apply Z.eqb_eq in Ey. subst. right. exact Hy.
+    + destruct (Z.eqb x 9) eqn:E9.
+      * apply andb_true_iff in H. destruct H as [_ H].
+        destruct (IH seen pre' post g H eq_refl Hg) as [H1|H1]; [left; right; exact H1|right; exact H1].
+      * destruct (Z.eqb x 99); [discriminate|].
+        destruct (IH (x :: seen) pre' post g H eq_refl Hg) as [H1|[H1|H1]].
+        -- left. right. exact H1.
+        -- left. left. exact H1.
+        -- right. exact H1.
+Qed.
+
+Lemma handoffs_guarded_sound : forall l, handoffs_guarded l = true ->
+  forall fam req seq, In (fam, req, seq) l ->
+  In 9%Z seq /\ forall pre post, seq = pre ++ 9%Z :: post -> forall g, In g req -> In g pre.
+Proof.
+  intros l H fam req seq Hin. unfold handoffs_guarded in H. rewrite forallb_forall in H.
+  specialize (H _ Hin). cbn in H. apply andb_true_iff in H. destruct H as [H9 Hg]. split.
+  - apply existsb_exists in H9. destruct H9 as [y [Hy Ey]]. apply Z.eqb_eq in Ey. subst. exact Hy.
+  - intros pre post E g Hr. destruct (guarded_sound req seq [] pre post g Hg E Hr) as [H1|[]]. exact H1.
 Qed.
